@@ -515,6 +515,9 @@ func (c *container) SetResourceUpdates(r *nri.LinuxResources) bool {
 			break
 		}
 	}
+	if len(updated.Requests) != len(orig.Requests) || len(updated.Limits) != len(orig.Limits) {
+		same = false
+	}
 
 	c.ResourceUpdates = &updated
 	return !same
